@@ -49,15 +49,24 @@ def parse_csv(path: Union[str, Path], **kwargs) -> List[DataSet]:
         DataFrame,
         read_csv,
     )
+    from pandas.errors import ParserError
 
     _validate_path(path)
 
     df: DataFrame
     try:
-        df = read_csv(path, engine="python", **kwargs)
-    except UnicodeDecodeError:
-        kwargs["encoding"] = "latin-1"
-        df = read_csv(path, engine="python", **kwargs)
+        try:
+            df = read_csv(path, engine="python", **kwargs)
+        except UnicodeDecodeError:
+            kwargs["encoding"] = "latin-1"
+            df = read_csv(path, engine="python", **kwargs)
+    except ParserError:
+        if "sep" in kwargs:
+            raise
+        # The rows do not contain the same number of commas (e.g., a decimal
+        # comma that is present in some rows only), which means that the
+        # comma is not the separator. Try the other separators instead.
+        df = DataFrame(columns=[""])
 
     if len(df.columns) == 1:
         separators: List[str] = [
@@ -69,6 +78,9 @@ def parse_csv(path: Union[str, Path], **kwargs) -> List[DataSet]:
 
         while len(df.columns) == 1:
             kwargs["sep"] = separators.pop(0)
-            df = read_csv(path, engine="python", **kwargs)
+            try:
+                df = read_csv(path, engine="python", **kwargs)
+            except ParserError:
+                continue
 
     return dataframe_to_data_sets(df, path=path)
